@@ -299,6 +299,12 @@ impl C12 {
                 if ge.attrs != me.attrs {
                     return Err("attribute order differs in the clone".into());
                 }
+                // the element's own declarations keep their relative order; added ones may go anywhere
+                let own_in_clone: Vec<&(String, String)> = ge.decls.iter().filter(|d| me.decls.contains(d)).collect();
+                let own: Vec<&(String, String)> = me.decls.iter().collect();
+                if own_in_clone != own {
+                    return Err(format!("the clone lists the element's own declarations as {:?}, the source has {:?}", own_in_clone, own));
+                }
                 // below the cloned element nothing is added or removed: same declarations, same order
                 for (gc, mc) in ge.children.iter().zip(me.children.iter()) {
                     same_tree(gc, mc, Cmp::exact()).map_err(|e| format!("below the cloned element the clone differs from the source (declarations included): {}", e))?;
